@@ -215,5 +215,6 @@ MatrixXd WhiteNoiseAcceleration::getStateTransitionMatrix()
 
 VectorXd WhiteNoiseAcceleration::getTransitionProbability(const Ref<const MatrixXd>& prev_states, const Ref<const MatrixXd>& cur_states)
 {
-    return utils::multivariate_gaussian_density(prev_states, prev_states.col(0), pimpl_->Q_);
+    /* p(x_{k} | x_{k-1}) = N(x_{k}; F x_{k-1}, Q), evaluated pair by pair. */
+    return utils::multivariate_gaussian_density(cur_states - pimpl_->F_ * prev_states, VectorXd::Zero(prev_states.rows()), pimpl_->Q_);
 }
